@@ -80,6 +80,9 @@ class Session:
         if getattr(side, "USES_FS", False):
             from . import fsmodel
             fsmodel.install(V)
+        if getattr(side, "USES_GROUPBY", False):
+            from . import itertools_model
+            itertools_model.install(V)
         if hasattr(side, "setup"):
             side.setup(V)
         files = getattr(side, "FILES", None) or {"": side.MODULE}
